@@ -75,8 +75,14 @@ func VerifTwin() {
 func VerifTwoSystems() {
 	what := vCfg("what")
 	cls := vCfg("cls")
-	s1 := newVerifSystem(uint8(vCfg("type")), uint8(vCfg("rom")), uint8(vCfg("ram")))
-	s2 := newVerifSystem(uint8(vCfg("type")), uint8(vCfg("rom")), uint8(vCfg("ram")))
+	// same header, different contents (one byte in the fixed bank, one in the switchable bank)
+	i1 := verifImage(uint8(vCfg("type")), uint8(vCfg("rom")), uint8(vCfg("ram")))
+	i2 := verifImage(uint8(vCfg("type")), uint8(vCfg("rom")), uint8(vCfg("ram")))
+	i1[0x0200], i1[0x4200] = 0x11, 0x12
+	i2[0x0200], i2[0x4200] = 0x21, 0x22
+	s1 := newVerifSystemImg(i1, nil)
+	s2 := newVerifSystemImg(i2, nil)
+	vAssert("each-machine-runs-its-own-rom", s1.m.Read(0x0200) == 0x11 && s1.m.Read(0x4200) == 0x12 && s2.m.Read(0x0200) == 0x21 && s2.m.Read(0x4200) == 0x22)
 	// RAM enabled on both so that cartridge RAM is observable
 	s1.m.Write(0x0000, 0x0a)
 	s2.m.Write(0x0000, 0x0a)
